@@ -64,6 +64,7 @@ type xrun struct {
 	deadline time.Duration
 	maxAlloc uint64
 	famAlloc map[string]uint64
+	pluginReached int
 	sample   []metrics.Sample
 }
 
@@ -522,6 +523,7 @@ func explore(a *Args, r *Rng, w *CaseWriter, firstID int64) error {
 	w.Set("exploration_inputs", x.n)
 	w.Set("exploration_inputs_by_family", x.byFam)
 	w.Set("exploration_violations", x.viol)
+	w.Set("exploration_cli_plugin_answers_inspected_by_verifier", x.pluginReached)
 	w.Set("exploration_max_allocation_bytes_in_one_call", x.maxAlloc)
 	w.Set("exploration_max_allocation_bytes_by_family", x.famAlloc)
 	w.Set("exploration_guards", fmt.Sprintf("recover around every call; deadline %v per call; allocation bound %d MiB per call (3 MiB for scripted registry content, 16 MiB for on-disk layouts: content declared just above the 4 MiB / 32 MiB caps must be refused unread); soft memory limit 3 GiB", x.deadline, boundSmall>>20))
@@ -1142,7 +1144,7 @@ func explorePluginProcess(x *xrun, r *Rng, e *env, ctx context.Context, tmp stri
 	pdir := filepath.Join(tmp, "plugins", "plug")
 	os.MkdirAll(pdir, 0o755)
 	path := filepath.Join(pdir, "notation-plug")
-	script := "#!/bin/sh\ncat >/dev/null\ncat \"$0.out\"\ncat \"$0.err\" >&2\nexit $(cat \"$0.code\")\n"
+	script := "#!/bin/sh\ncat >/dev/null\ncat \"$0.$1.out\"\ncat \"$0.$1.err\" >&2\nexit $(cat \"$0.$1.code\")\n"
 	if err := os.WriteFile(path, []byte(script), 0o755); err != nil {
 		panic(err)
 	}
@@ -1155,9 +1157,14 @@ func explorePluginProcess(x *xrun, r *Rng, e *env, ctx context.Context, tmp stri
 		panic(err)
 	}
 	for k := 0; k < n; k++ {
-		cmd := r.Intn(5)
+		cmd := Pick(r, []int{0, 1, 1, 1, 2, 3, 4})
 		base := [][]byte{meta, verifyResp, keyResp, []byte(`{"keyId":"kid","signature":"AAAA","signingAlgorithm":"ECDSA-SHA-256","certificateChain":["AAAA"]}`), []byte(`{"signatureEnvelope":"AAAA","signatureEnvelopeType":"application/jose+json","annotations":{"a":"b"}}`)}[cmd]
 		out, errb, code := base, []byte(nil), 0
+		shapes := pluginShapeTexts()
+		if cmd == 1 && r.Bool() {
+			base = []byte(shapes[r.Intn(len(shapes))])
+			out = base
+		}
 		switch r.Intn(6) {
 		case 0:
 		case 1:
@@ -1174,9 +1181,15 @@ func explorePluginProcess(x *xrun, r *Rng, e *env, ctx context.Context, tmp stri
 		case 5:
 			out = bytes.Repeat([]byte("A"), 1<<uint(10+r.Intn(10)))
 		}
-		os.WriteFile(path+".out", out, 0o644)
-		os.WriteFile(path+".err", errb, 0o644)
-		os.WriteFile(path+".code", []byte(fmt.Sprint(code)), 0o644)
+		cmdName := []string{"get-plugin-metadata", "verify-signature", "describe-key", "generate-signature", "generate-envelope"}[cmd]
+		if cmd != 0 {
+			os.WriteFile(path+".get-plugin-metadata.out", meta, 0o644)
+			os.WriteFile(path+".get-plugin-metadata.err", nil, 0o644)
+			os.WriteFile(path+".get-plugin-metadata.code", []byte("0"), 0o644)
+		}
+		os.WriteFile(path+"."+cmdName+".out", out, 0o644)
+		os.WriteFile(path+"."+cmdName+".err", errb, 0o644)
+		os.WriteFile(path+"."+cmdName+".code", []byte(fmt.Sprint(code)), 0o644)
 		in := append(append(append([]byte(nil), out...), []byte("\n--stderr--\n")...), errb...)
 		x.call("plugin-process", []string{"CLIPlugin.GetMetadata", "CLIPlugin.VerifySignature", "CLIPlugin.DescribeKey", "CLIPlugin.GenerateSignature", "CLIPlugin.GenerateEnvelope"}[cmd], fmt.Sprintf("exit=%d", code), in, boundSmall+(4<<20), func() {
 			c2, cancel := context.WithTimeout(ctx, 10*time.Second)
@@ -1201,8 +1214,13 @@ func explorePluginProcess(x *xrun, r *Rng, e *env, ctx context.Context, tmp stri
 			}
 		})
 		// the same answers consumed by the verifier (metadata, then verify-signature)
-		if cmd <= 1 && k%3 == 0 {
-			mgr := plugin.NewCLIManager(dir.NewSysFS(filepath.Join(tmp)))
+		if cmd == 1 || (cmd == 0 && k%2 == 0) {
+			if cmd == 0 {
+				os.WriteFile(path+".verify-signature.out", verifyResp, 0o644)
+				os.WriteFile(path+".verify-signature.err", nil, 0o644)
+				os.WriteFile(path+".verify-signature.code", []byte("0"), 0o644)
+			}
+			mgr := plugin.NewCLIManager(dir.NewSysFS(filepath.Join(tmp, "plugins")))
 			s := okSc()
 			s.PAttr, s.Crit = 2, true
 			envb := e.envelope(s)
@@ -1217,6 +1235,9 @@ func explorePluginProcess(x *xrun, r *Rng, e *env, ctx context.Context, tmp stri
 				defer cancel()
 				o, err := v.Verify(c2, e.desc, envb, notation.VerifierVerifyOptions{ArtifactReference: e.ref, SignatureMediaType: MtJWS})
 				checkPair(o, err, true)
+				if o != nil && len(o.VerificationResults) >= 4 {
+					x.pluginReached++ // the native validations passed: the plugin's answer was asked for and inspected
+				}
 			})
 		}
 	}
